@@ -26,6 +26,7 @@ CHECK = {'level': 'exploration',
             'module': 'sdk',
             'pkg': './helper/shamir',
             'run': '^TestVerifC20Shamir$',
+            'gomaxprocs': 1,
             'shards': {'quick': 16, 'thorough': 16},
             'timeout': {'quick': 600, 'thorough': 2400}},
            {'name': 'core',
